@@ -26,7 +26,8 @@ func genGlobals(repo string) (string, error) {
 		}
 		type gv struct{ name, init string }
 		var vars []gv
-		tables := map[string]bool{} // literal tables of plain values (no pointers, slices, maps or functions inside)
+		tables := map[string]bool{}      // literal tables of plain values (no pointers, slices, maps or functions inside)
+		valueTables := map[string]bool{} // those that are struct values (copied wherever they are used)
 		for _, fn := range p.sortedFiles() {
 			for _, d := range p.files[fn].Decls {
 				gd, ok := d.(*ast.GenDecl)
@@ -53,6 +54,9 @@ func genGlobals(repo string) (string, error) {
 								init = "literal"
 								if flatTable(p, v) {
 									tables[n.Name] = true
+									if _, isValue := v.Type.(*ast.Ident); isValue {
+										valueTables[n.Name] = true
+									}
 								}
 							case *ast.UnaryExpr:
 								init = "address"
@@ -158,7 +162,7 @@ func genGlobals(repo string) (string, error) {
 		// a table of plain values that is only ever indexed, ranged over or measured cannot change: no function holds a
 		// reference to it or to anything inside it
 		for name := range tables {
-			if len(writers[name]) == 0 && !escapes(p, name) {
+			if len(writers[name]) == 0 && ((valueTables[name] && !methodCalledOn(p, name)) || (!valueTables[name] && !escapes(p, name))) {
 				for i := range vars {
 					if vars[i].name == name {
 						vars[i].init = "literal:read-only table"
@@ -230,6 +234,11 @@ func flatTable(p *pkgSrc, cl *ast.CompositeLit) bool {
 		}
 	case *ast.ArrayType:
 		if !flatType(p, t.Elt, 0) {
+			return false
+		}
+	case *ast.Ident:
+		// a value of a flat struct type of the package: copies of it hold no reference to it
+		if basicTypeNames[t.Name] || !flatType(p, t, 0) {
 			return false
 		}
 	default:
@@ -317,4 +326,25 @@ func escapes(p *pkgSrc, name string) bool {
 		}
 	}
 	return esc
+}
+
+// methodCalledOn: some function calls a method on the variable (a method with a pointer receiver could write it)
+func methodCalledOn(p *pkgSrc, name string) bool {
+	found := false
+	for _, fd := range p.allFuncs() {
+		if fd.Body == nil {
+			continue
+		}
+		ast.Inspect(fd.Body, func(n ast.Node) bool {
+			if ce, ok := n.(*ast.CallExpr); ok {
+				if sel, ok := ce.Fun.(*ast.SelectorExpr); ok {
+					if id, ok := sel.X.(*ast.Ident); ok && id.Name == name {
+						found = true
+					}
+				}
+			}
+			return true
+		})
+	}
+	return found
 }
